@@ -179,7 +179,6 @@ PROPS['C06'] = {
             for x in range(4) for y in range(4)
         ],
         'jobs': 16,
-        'harness_timeout': '120m', 'timeout_s': 9000,
     },
     'trusted': STAGES_TRUSTED + [
         'unit initenc: std::io::Write for in-memory writers (written / room), byteorder writes through wrappers (T1), f32 <-> 4 big-endian bytes as uninterpreted functions with the axiom f32_be(f32_bytes(v)) == v (to_bits / from_bits), identity of the ring algorithm statics through algo_code; the list holds only the three known ciphers (precondition: the `unreachable!()` of the loop)',
